@@ -76,8 +76,22 @@ def dec(v):
     return v
 
 
+class Pre(object):
+    """an already-encoded value (used for objects that only exist at run time: locks, generators)"""
+    def __init__(self, j):
+        self.j = j
+    def __eq__(self, o):
+        return isinstance(o, Pre) and o.j == self.j
+    def __hash__(self):
+        return hash(repr(self.j))
+    def __repr__(self):
+        return 'Pre(%r)' % (self.j,)
+
+
 def enc(v):
     """encode a Python value as JSON data (inverse of dec for the values we generate)"""
+    if isinstance(v, Pre):
+        return v.j
     if isinstance(v, bool):
         return {'__B__': int(v)}
     if isinstance(v, tuple):
@@ -142,6 +156,17 @@ class Probe(object):
         exec(src, self.ns)
         self.fn = self.ns['P']
         self.raw = self.ns['RAW']
+
+    @classmethod
+    def adopt(cls, sig, result_mode, fn):
+        """wrap an existing probe function (e.g. one restored by dill) whose globals hold the log"""
+        self = cls.__new__(cls)
+        self.sig, self.result_mode = sig, result_mode
+        self.ns = fn.__globals__
+        self.fn = fn
+        self.raw = self.ns['RAW']
+        self.src = None
+        return self
 
     @property
     def log(self):
